@@ -50,13 +50,15 @@ def history(rng, big=True):
         L += ["open 1 - %s w" % hexs(b"frag1"), "write 1 3 %d" % (rng.choice([1, 5, 40]) * bs), "close 1",
               "open 1 - %s w" % hexs(b"frag2"), "write 1 4 %d" % (rng.choice([1, 3, 75]) * bs), "close 1", "rm - %s" % hexs(b"frag1")]
         meta["frag"] = True
+    # a bystander: another file whose blocks no call on the handle may write (the frame theorems of Props/Properties_C18.v)
+    L += ["open 1 - %s w" % hexs(b"bystander"), "write 1 5 %d" % (rng.choice([1, 3, 74]) * bs), "close 1"]
     nearly_full = rng.random() < 0.2
     if nearly_full:
         # leave only a few free blocks: real exhaustion inside a write / a growing truncate
         left = rng.choice([1, 2, 3, 5, 74, 75, 76, 147])
         meta["left"] = left
         L += ["open 1 - %s w" % hexs(b"filler"), "FILL %d" % left, "close 1"]
-    L += ["atrack", "alog $W/alog"]
+    L += ["atrack", "alog $W/alog", "wlog $W/wlog"]
     ops = []
     E = edges(bs)
     size = 0          # light model of the size, only to aim the calls
@@ -67,6 +69,7 @@ def history(rng, big=True):
 
     def call(line, **kw):
         L.append("amark %d" % len(ops))
+        L.append("wmark %d" % len(ops))
         L.append(line)
         d = {"line": len(L), "text": line}
         d.update(kw)
@@ -144,7 +147,7 @@ def history(rng, big=True):
             is_open = False
     if is_open:
         call("close 0", kind="close")
-    L += ["alog off", "umount", "umountdev"]
+    L += ["wlog off", "dump $W/final", "alog off", "umount", "umountdev"]
     return L, ops, meta
 
 
@@ -212,6 +215,44 @@ def decode_blocks(bline, ofs):
             "type": ty,
         }
     return d
+
+
+def frame_check(ctx, wd, ops, mo, L, meta):
+    try:
+        img = open(os.path.join(wd, "final"), "rb").read()
+        log = open(os.path.join(wd, "wlog")).read().splitlines()
+    except FileNotFoundError:
+        return ("corr", "no write log / final image from a file handle history", {"script": L, "meta": meta}, None, None)
+    nb = len(img) // 512
+    root = nb // 2
+    be = lambda b, o: int.from_bytes(img[b * 512 + o:b * 512 + o + 4], "big")
+    bmpages = {be(root, 316 + 4 * k) for k in range(25)} - {0}
+    universe = set()
+    for m in mo[2::3]:
+        for tok in m.split()[1:]:
+            universe.add(int(tok.split(":", 1)[0]))
+    cur = None
+    for line in log:
+        t = line.split()
+        if not t:
+            continue
+        if t[0] == "M":
+            cur = int(t[1])
+            continue
+        if t[0] != "W" or cur is None:
+            continue
+        n = int(t[1])
+        ctx.bump("fileio_frame_writes")
+        if n in universe:
+            continue
+        if n == root or n in bmpages or (0 < n < nb and be(n, 0) == 33):
+            ctx.bump("fileio_frame_metadata_writes")
+            continue
+        o = ops[cur] if cur < len(ops) else {"text": "?", "bline": len(L)}
+        return ("corr", "a handle call writes block %d, which is neither the file's (header, data, extension blocks) nor root / bitmap / directory cache: "
+                "Model/FileIO changes nothing outside the file (C18 frame theorems)" % n,
+                {"script": L[:o["bline"]] + ["umount", "umountdev"], "meta": meta, "call": o["text"], "call_index": cur, "block": n}, "no write outside the file", line[:60])
+    return None
 
 
 def with_faults(ctx, L, ops, meta):
@@ -345,6 +386,12 @@ def run_one(ctx, L, ops, meta):
             if ib is None or ib[kind] != f[1] + ":" + f[2]:
                 return ("corr", "block %d on the device after %s differs from the model's volume (%s block)" % (n, k, {"D": "data", "X": "extension", "H": "header"}[kind]),
                         det, tok, None if ib is None else ib[kind])
+    # 3b. the frame (Props/Properties_C18.v: a handle call changes nothing outside header :: data ++ extension blocks of the file): every
+    #     device write of a call that lands outside the model's universe (the header and the blocks the allocator handed to this file)
+    #     must be a write of the metadata the model leaves out - root block, bitmap page, directory-cache block of the parent
+    r = frame_check(ctx, wd, ops, mo, L, meta)
+    if r:
+        return r
     # 4. the blocks every truncation gave back are free afterwards (probed at the end for blocks not handed out again)
     freed, again = [], set()
     for i, o in enumerate(ops):
